@@ -443,6 +443,7 @@ fn letters() -> Vec<Let> {
     p("cfe!", op::cfe(R_MAX), 0);
     p("cfs", op::cfs(R_L), 0);
     p("cfs!", op::cfs(R_MAX), 0);
+    p("cfsi-64", op::cfsi(64), 0);
     p("mcl", op::mcl(R_HP, R_L), 0);
     p("mcl!", op::mcl(R_M1, R_MAX), 0);
     p("mcl-unowned!", op::mcl(z, R_L), 0);
